@@ -37,13 +37,17 @@ vars == <<L, refs, last>>
 -----------------------------------------------------------------------------
 (* Data *)
 
-MdTypes == {"A", "B", "G"}          \* metadata types a buildpack may request
+MdTypes == {"A", "B", "G", "L"}     \* metadata types a buildpack may request
+           \* A, B: strict types (deny_unknown_fields); G: GenericMetadata; L: a lenient type with the
+           \* field of A that ignores keys it does not know
 NoMd    == [kind |-> "none", v |-> "-"]
 Md(k,v) == [kind |-> k, v |-> v]
-AllMd   == {NoMd} \cup {Md(k, v) : k \in {"A", "B", "X"}, v \in MdVals}
-           \* kind X: a table that parses neither as A nor as B
-MdOf(T) == IF T = "G" THEN AllMd ELSE {Md(T, v) : v \in MdVals}
-MdParses(md, T) == T = "G" \/ md.kind = T
+AllMd   == {NoMd} \cup {Md(k, v) : k \in {"A", "B", "X", "AX"}, v \in MdVals}
+           \* kind X: a table that parses neither as A nor as B;  AX: A's field plus a key no type knows
+MdOf(T) == IF T = "G" THEN AllMd ELSE IF T = "L" THEN {Md("A", v) : v \in MdVals} ELSE {Md(T, v) : v \in MdVals}
+MdParses(md, T) == T = "G" \/ md.kind = T \/ (T = "L" /\ md.kind \in {"A", "AX"})
+\* the typed value a buildpack sees of the stored table (a lenient type drops what it does not know)
+TypedView(md, T) == IF T = "L" /\ md.kind = "AX" THEN Md("A", md.v) ELSE md
 
 NoTy     == [set |-> FALSE, build |-> FALSE, launch |-> FALSE, cache |-> FALSE]
 Ty(b,l,c)== [set |-> TRUE,  build |-> b, launch |-> l, cache |-> c]
@@ -131,7 +135,7 @@ RlaDecisions    == {Dec("Keep", c, NoMd) : c \in Causes}
 \* what happens once the layer was read successfully (metadata parses as T)
 StructSome(act, n, l, ty, T, ima, calls0, imaSet, rlaSet, vis) ==
   \E rla \in rlaSet :
-    LET calls == IF vis THEN Append(calls0, Call("rla", l.toml.md, "none", FALSE)) ELSE <<>>
+    LET calls == IF vis THEN Append(calls0, Call("rla", TypedView(l.toml.md, T), "none", FALSE)) ELSE <<>>
         O(ret) == Obs(act, n, ty, T, ima, rla, NoDec, NoDec, NoRes, NoRes, NoArg, ret, calls)
     IN  CASE rla.k = "Err"    -> Finish(n, l, TRUE, O(RetErrBuildpack))
           [] rla.k = "Delete" -> Finish(n, CreateLayer(DeleteLayer(l), ty), TRUE,
@@ -244,19 +248,19 @@ TraitCreate(n, l0, ty, T, strat, mig, calls0, cresSet) ==
 \* the layer was read and its metadata parses as T: ask the strategy callback
 TraitSome(n, l, ty, T, mig, calls0, stratSet, cresSet, uresSet) ==
   \E strat \in stratSet :
-    LET calls == Append(calls0, Call("strategy", l.toml.md, l.env, FALSE))
+    LET calls == Append(calls0, Call("strategy", TypedView(l.toml.md, T), l.env, FALSE))
         O(ures, ret, cs) == Obs("handle_layer", n, ty, T, NoDec, NoDec, strat, mig, NoRes,
                                 ures, NoArg, ret, cs)
     IN  CASE strat.k = "Err"      -> Finish(n, l, FALSE, O(NoRes, RetErrBuildpack, calls))
           [] strat.k \in {"Recreate", "Default"} -> TraitCreate(n, DeleteLayer(l), ty, T, strat, mig, calls, cresSet)
           [] strat.k = "Keep"     -> Finish(n, ReplaceTypes(l, ty), FALSE,
-                                            O(NoRes, RetData(l.toml.md, l.env, ty), calls))
+                                            O(NoRes, RetData(TypedView(l.toml.md, T), l.env, ty), calls))
           [] strat.k = "Update"   ->
                \E res \in uresSet :
-                 LET cs == Append(calls, Call("update", l.toml.md, l.env, FALSE))
+                 LET cs == Append(calls, Call("update", TypedView(l.toml.md, T), l.env, FALSE))
                      \* what the update amounts to (the default one re-uses what was read)
                      ures == IF res.k = "Default"
-                             THEN [k |-> "Default", md |-> l.toml.md, shape |-> [NoShape EXCEPT !.env = l.env]]
+                             THEN [k |-> "Default", md |-> TypedView(l.toml.md, T), shape |-> [NoShape EXCEPT !.env = l.env]]
                              ELSE res
                  IN
                  IF res.k = "Err" THEN Finish(n, l, FALSE, O(res, RetErrBuildpack, cs))
@@ -416,7 +420,7 @@ StructReport ==
         THEN ~o.ret.ok /\ o.calls = <<>>
       ELSE IF MdParses(md0, o.T)
         THEN /\ o.ima = NoDec
-             /\ Calls(<<Call("rla", md0, "none", FALSE)>>)
+             /\ Calls(<<Call("rla", TypedView(md0, o.T), "none", FALSE)>>)
              /\ RlaOutcome(o)
       ELSE CASE o.ima.k = "Err"     -> /\ o.ret = RetErrBuildpack
                                        /\ Calls(<<Call("ima", md0, "none", FALSE)>>)
@@ -486,7 +490,7 @@ TraitCallbacksWhenDue ==
          /\ Count(o.calls, "strategy") <= 1 /\ Count(o.calls, "migrate") <= 1
          \* the strategy decides on the stored (or migrated) metadata and the stored env
          /\ \A i \in DOMAIN o.calls : o.calls[i].cb \in {"strategy", "update"} =>
-              /\ o.calls[i].md = IF o.mig.k = "Replace" THEN o.mig.md ELSE StoredMd(pre)
+              /\ o.calls[i].md = IF o.mig.k = "Replace" THEN o.mig.md ELSE TypedView(StoredMd(pre), o.T)
               /\ o.calls[i].env = pre.env
          /\ (pre.dir /\ pre.toml.k # "garbage") =>
               (Count(o.calls, "migrate") = 1) = ~MdParses(StoredMd(pre), o.T) ]_vars
@@ -516,6 +520,7 @@ PersistedEqualsResult ==
 ReturnedEqualsDisk ==
   [][ last'.ret.kind = "Data" =>
       LET post == L'[last'.n] IN
-      last'.ret.md = post.toml.md /\ last'.ret.env = post.env /\ last'.ret.ty = post.toml.ty ]_vars
+      \* (seen through the requested metadata type)
+      last'.ret.md = TypedView(post.toml.md, last'.T) /\ last'.ret.env = post.env /\ last'.ret.ty = post.toml.ty ]_vars
 
 =============================================================================
